@@ -560,12 +560,14 @@ def _ops(tier, subject, length):
             ops.append(['set', i, mi, 'text'])
             if ident is not None:
                 ops.append(['set', i, mi, 'obj'])
+            # the text of a member set on the member itself (an existing Selector object gets a new text)
+            ops.append(['selset', i, mi, 'text'])
     ops += [['text', lt] for lt in _list_texts(tier)]
     if subject != 'list':
         ops += [['ruletext', lt] for lt in _list_texts(tier, full=False)]
     # the same text operations with the library in its log-only error mode (the mode every parse runs in)
     short = _list_texts(tier, full=False)
-    ops += [op + ['quiet'] for op in ops if (op[0] in ('text', 'ruletext') and op[1] in short) or (op[0] in ('appendSelector', 'set') and op[-1] == 'text')]
+    ops += [op + ['quiet'] for op in ops if (op[0] in ('text', 'ruletext') and op[1] in short) or (op[0] in ('appendSelector', 'set', 'selset') and op[-1] == 'text')]
     return ops
 
 
@@ -620,6 +622,8 @@ def _apply_real(live, op, menu):
                     live.list.appendSelector(arg)
                 else:
                     live.list[op[1]] = arg
+            elif kind == 'selset':
+                live.list[op[1]].selectorText = menu[op[2]][0]
             elif kind == 'text':
                 live.list.selectorText = _join(menu, op[1], ',')
             elif kind == 'ruletext':
@@ -642,7 +646,7 @@ def _apply_ref(model, op, menu):
     kind = op[0]
     if kind in ('append', 'appendSelector'):
         return model.append(menu[op[1]][1])
-    if kind == 'set':
+    if kind in ('set', 'selset'):
         return model.replace(op[1], menu[op[2]][1])
     return model.set_text([None if m == EMPTY else menu[m][1] for m in op[1]])
 
@@ -831,7 +835,7 @@ def replay(case, tier, seed):
         hist = case['history']
         t = tier
         allops = [_base(o) for o in hist[1:] + ([case['op']] if case['op'] else [])]
-        used = [o[1] if o[0] != 'set' else o[2] for o in allops if o[0] in ('append', 'appendSelector', 'set')]
+        used = [o[1] if o[0] not in ('set', 'selset') else o[2] for o in allops if o[0] in ('append', 'appendSelector', 'set', 'selset')]
         used += [m for o in allops if o[0] in ('text', 'ruletext') for m in o[1]]
         if any(m >= len(MENU_Q) for m in used):
             t = 'thorough'
@@ -879,6 +883,8 @@ def standalone(case, v):
             mi = op[1] if kind != 'set' else op[2]
             arg = f'menu[{mi}]' if (kind == 'append' or op[-1] == 'text') else f'cssutils.css.Selector(menu[{mi}])'
             call = f'cur().{kind}({arg})' if kind != 'set' else f'cur()[{op[1]}] = {arg}'
+        elif kind == 'selset':
+            call = f'cur()[{op[1]}].selectorText = menu[{op[2]}]'
         elif kind == 'text':
             call = f'cur().selectorText = {_join(menu, op[1], ",")!r}'
         else:
